@@ -28,3 +28,17 @@ Definition no_viol sel (d : decl R) args : Prop := forall j, ~ viol_at sel (inpu
 
 Definition same_but_errno (r1 r2 : result R) : Prop :=
   status r1 = status r2 /\ bounds_status r1 = bounds_status r2 /\ c_error_number r1 = c_error_number r2 /\ ret r1 = ret r2.
+
+(* ---- extensions: c++ interface, options, returned value ------------------------------------------------------ *)
+(* rank i (from 1) designates an input whose selected bounds are violated *)
+Definition viol_rank (sel : var R -> option (bounds R)) (d : decl R) (args : list (ext R)) (i : nat) : Prop :=
+  (1 <= i)%nat /\ viol_at sel (inputs d) args (i - 1).
+
+(* a line of the parameters file that the documentation of the handler calls an error *)
+Definition bad_line (l : pline) : Prop :=
+  l = PTokens \/ exists known conv, l = PAssign known conv /\ (known = false \/ conv = false).
+
+(* two results that differ at most by the value returned with a negative status *)
+Definition same_but_failed_ret (r1 r2 : result R) : Prop :=
+  status r1 = status r2 /\ bounds_status r1 = bounds_status r2 /\ c_error_number r1 = c_error_number r2 /\
+  errno_after r1 = errno_after r2 /\ ((0 <= status r1)%Z -> ret r1 = ret r2).
